@@ -115,6 +115,7 @@ type tctx struct {
 	p      *pkg
 	fields map[string]string // Go field -> Lean field
 	consts map[string]string // Go identifier / selector -> Lean term
+	calls  map[string]string // Go callee (ident or recv.method) -> Lean function application prefix
 }
 
 func (c *tctx) nat(e ast.Expr) (string, error) {
@@ -150,6 +151,27 @@ func (c *tctx) nat(e ast.Expr) (string, error) {
 			}
 		}
 	case *ast.CallExpr: // integer conversions are the identity on Nat
+		if c.calls != nil {
+			key := ""
+			if id, ok := x.Fun.(*ast.Ident); ok {
+				key = id.Name
+			} else if sel, ok := x.Fun.(*ast.SelectorExpr); ok {
+				if id, ok := sel.X.(*ast.Ident); ok {
+					key = id.Name + "." + sel.Sel.Name
+				}
+			}
+			if f, ok := c.calls[key]; ok && key != "" {
+				out := "(" + f
+				for _, a := range x.Args {
+					s, err := c.nat(a)
+					if err != nil {
+						return "", err
+					}
+					out += " " + s
+				}
+				return out + ")", nil
+			}
+		}
 		if id, ok := x.Fun.(*ast.Ident); ok && len(x.Args) == 1 {
 			switch id.Name {
 			case "int", "int64", "int32", "uint32", "uint64", "uint":
